@@ -397,6 +397,11 @@ class GNFA(fa.FA):
                     else:
                         r4 = f"|{r4}"
 
+                    if r4 != "" and r1 + r2 + r3 == "":
+                        # An empty concatenation next to a union/option must be
+                        # written explicitly as the empty string
+                        r1 = "()"
+
                     if r4 == "?" and len(r1) + len(r2) + len(r3) > 1:
                         new_transitions[q_i][q_j] = f"({r1}{r2}{r3}){r4}"
                     else:
